@@ -35,6 +35,42 @@ POSITIVE_R115 = {"m.py": "import numba\n\n@numba.njit()\ndef callee(x, a=1, b=2.
                          "        y = 0.0\n    return y\n"}
 
 
+def direction_step_rule(ctx, rule):
+    """shared with C09 (rotation covariance of the estimated wind direction needs the same wrap)"""
+    p = ctx.program
+    f = p.get_function(WI + "_u10_from_bulk_rate_point")
+    windfn = FuncVal(p.get_function(WIND))
+    tailfn = P("tailfn")
+    bulk, u10g, dirg, dEdt = P("bulk_rate"), P("guess_u10"), P("guess_direction"), P("dEdt")
+    # with direction iteration: the step from the current direction to the new stress direction is measured along the shortest arc,
+    # ((new - old + 180) mod 360) - 180 with the floored modulo (a remainder that keeps the sign of its dividend does not wrap a
+    # step that crosses north counter-clockwise, and the iteration is then relaxed towards the opposite direction)
+    it_d = kernel_interp(p, {NR: "newton", WB + "stress._total_stress_point": "total_stress"})
+    it_d.call_function(f, [bulk, E, u10g, dirg, DEPTH, GRID, PAR, windfn, tailfn, dEdt, True], {}, None)
+    dloops = [L for L in it_d.loops if L.func == f.qualname]
+    steps = []
+    for L in dloops:
+        for nm, (o_, sy_, fin_) in L.carried.items():
+            if sy_ is None or T.to_term(o_) != dirg:
+                continue
+            for a_ in {x.args[0] for x in T.subterms(T.to_term(fin_)) if isinstance(x, sp.Abs)}:
+                steps.append((L, sy_, a_))
+    if not steps:
+        ctx.unsure(rule, "_u10_from_bulk_rate_point[direction step]", "direction iteration with a step size test not found", f.loc())
+    for L, dsym, a_ in steps[:1]:
+        pm = T.find_ops(a_, "pymod")
+        okd = len(pm) == 1 and sp.expand(a_ - (pm[0] - 180)) == 0 and pm[0].args[1] == 360
+        if okd:
+            news = [x for x in T.find_ops(pm[0].args[0], "item") if fname(x.args[0]) == "total_stress"]
+            NEW = sp.Symbol("new_direction")
+            inner = sp.expand(pm[0].args[0].xreplace({x: NEW for x in news}) - 180 + dsym - NEW)
+            okd = len(news) == 1 and inner == 0
+        ctx.expect(okd, rule, "_u10_from_bulk_rate_point[direction step]",
+                   "the change of direction is ((new - old + 180) mod 360) - 180 with Python's floored modulo: the shortest arc, signed",
+                   L.loc, derived=a_, required="pymod(new - old + 180, 360) - 180")
+    ctx.absorb(it_d)
+
+
 def run(ctx):
     ctx.explanation = EXPLANATION
     p = ctx.program
@@ -46,6 +82,7 @@ def run(ctx):
 
     # ---- R11.1 / R11.3 / R11.4 _u10_from_bulk_rate_point
     f = p.get_function(WI + "_u10_from_bulk_rate_point")
+    direction_step_rule(ctx, "R11.3")
     it = kernel_interp(p, {NR: "newton", WB + "stress._total_stress_point": "total_stress"})
     r = it.call_function(f, [bulk, E, u10g, dirg, DEPTH, GRID, PAR, windfn, tailfn, dEdt, False], {}, None)
     if not (isinstance(r, tuple) and len(r) == 2):
@@ -328,7 +365,7 @@ def run(ctx):
     ctx.require_count("R11.7", 7)
     ctx.require_count("R11.1", 1)
     ctx.require_count("R11.2", 9)
-    ctx.require_count("R11.3", 9)
+    ctx.require_count("R11.3", 10)
     ctx.require_count("R11.4", 4)
     ctx.require_count("R11.5", 3)
     ctx.require_count("R11.6", 2)
